@@ -194,7 +194,10 @@ def text_mutants(r, tier, ok, kind):
     fragments = [b'"', b'\\', b'\\x', b'"unterminated', b"..", b"../..", b"/../x", b"\0", b"99999999999999999999999", b"-1", b"0x", b"0s!!!", b"0xZZ", b"[", b"]", b"[glob", b"[unknown_flag]",
                  b"\r", b"\t\t", b"#", b"=", b"a" * 70000, b"glob", b"-type", b"-type q", b"-name", b"--", b"link /a 0 0 0 /a", b"link /x 0 0 0 /y\nlink /y 0 0 0 /x",
                  b"link /l1 0 0 0 /l2\nlink /l2 0 0 0 /l3\nlink /l3 0 0 0 /l2", b"file / 0644 0 0", b"dir /a/../../b 0755 0 0", b"nod /n 0600 0 0 x 1 2", b"nod /n 0600 0 0 c 99999999999 1",
-                 b"file /f 07777777 0 0 data", b"file /f 0644 4294967296 0 data", b"slink /s 0777 0 0", b"# file: ../x", b"# file: ", b"user.a=", b"=value", b"user.a=\"\\", b"user.a=0s", b"user.a=0x1"]
+                 b"file /f 07777777 0 0 data", b"file /f 0644 4294967296 0 data", b"slink /s 0777 0 0", b"# file: ../x", b"# file: ", b"user.a=", b"=value", b"user.a=\"\\", b"user.a=0s", b"user.a=0x1",
+                 # quoted value escapes: backslash right before the closing quote, short / long / non-octal escapes
+                 b'user.q1="abc\\"', b'user.q2="\\"', b'user.q3="\\\\"', b'user.q4="\\0"', b'user.q5="\\9"', b'user.q6="\\777"', b'user.q7="\\1\\12\\123\\1234"', b'user.q8="a\\',
+                 b'user.q9=""', b'user.q10="', b'user.q11="a"b"', b"user.q12=0x", b"user.q13=0xA", b"user.q14=0s=", b"user.q15=0sQQ", b"user.q16=0sQUJD=", b'"abc\\"', b'\\"']
     # deterministic pass: every fragment as a line of its own (start, middle, end) and appended to a line
     for fr in fragments:
         for k in (0, len(lines) // 2, len(lines) - 1):
